@@ -270,14 +270,19 @@ func TestDriveCli(t *testing.T) {
 	writeInt(reg["f.pwm"], 50)
 	writeInt(reg["f.rpm"], 800)
 	writeInt(filepath.Join(dir, "temp"), 50000)
+	// sensors of the three kinds for `fan2go sensor --id S`
+	sreg := map[string]string{"s1": filepath.Join(dir, "temp"), "s2": filepath.Join(dir, "temp_cmd"), "s3": filepath.Join(chip, "temp1_input")}
+	writeInt(sreg["s2"], 41000)
+	writeInt(sreg["s3"], 37000)
+	writeScript(filepath.Join(dir, "sensor.sh"), "cat "+sreg["s2"]+"\n")
 	fileHasRpm := r.Intn(2) == 0
 	rpmLine := ""
 	if fileHasRpm {
 		rpmLine = "      rpmPath: " + reg["f.rpm"] + "\n"
 	}
 	cfgPath := filepath.Join(dir, "fan2go.yaml")
-	yaml := fmt.Sprintf("dbPath: %s\nsensors:\n  - id: s1\n    file:\n      path: %s\ncurves:\n  - id: c1\n    linear:\n      sensor: s1\n      min: 40\n      max: 80\nfans:\n  - id: h\n    curve: c1\n    hwmon:\n      platform: chipa\n      index: 1\n  - id: f\n    curve: c1\n    file:\n      path: %s\n%s",
-		filepath.Join(dir, "cli.db"), filepath.Join(dir, "temp"), reg["f.pwm"], rpmLine)
+	yaml := fmt.Sprintf("dbPath: %s\nsensors:\n  - id: s1\n    file:\n      path: %s\n  - id: s2\n    cmd:\n      exec: %s\n  - id: s3\n    hwmon:\n      platform: chipa\n      index: 1\ncurves:\n  - id: c1\n    linear:\n      sensor: s1\n      min: 40\n      max: 80\nfans:\n  - id: h\n    curve: c1\n    hwmon:\n      platform: chipa\n      index: 1\n  - id: f\n    curve: c1\n    file:\n      path: %s\n%s",
+		filepath.Join(dir, "cli.db"), filepath.Join(dir, "temp"), filepath.Join(dir, "sensor.sh"), reg["f.pwm"], rpmLine)
 	must(os.WriteFile(cfgPath, []byte(yaml), 0644))
 	regs := func(fan string) Ev {
 		if fan == "h" {
@@ -290,6 +295,37 @@ func TestDriveCli(t *testing.T) {
 		fan := []string{"h", "f"}[r.Intn(2)]
 		var args []string
 		ev := Ev{"ev": "Cli", "fan": fan, "v": 0, "arg": ""}
+		if r.Intn(4) == 0 {
+			// a sensor command: the value changes between commands, now and then the backend is gone
+			sid := []string{"s1", "s2", "s3"}[r.Intn(3)]
+			v := []int{0, 1, 999, 25000, 54321, 99999, 120000}[r.Intn(7)]
+			present := r.Intn(5) > 0
+			if present {
+				writeInt(sreg[sid], v)
+			} else {
+				_ = os.Remove(sreg[sid])
+			}
+			sev := Ev{"ev": "Cli", "fan": sid, "v": 0, "arg": "", "cmd": "sensorGet", "before": Ev{"kind": "sensor", "value": v, "present": present}}
+			var outb bytes.Buffer
+			cmd := StartChild("cli", []string{"sensor", "--id", sid, "-c", cfgPath}, root, filepath.Join(dir, "cli.trace"), &outb)
+			code, _, timedOut := waitExit(cmd, 20*time.Second)
+			if timedOut {
+				code = -9
+			}
+			val := -1
+			if m := numRe.FindStringSubmatch(strings.TrimSpace(outb.String())); m != nil && code == 0 {
+				val, _ = strconv.Atoi(m[1])
+			}
+			// (the device is what it was: nothing but the sensor's own file exists to be changed)
+			after := Ev{"kind": "sensor", "value": v, "present": present}
+			if present && readIntFile(sreg[sid]) != v {
+				after["value"] = readIntFile(sreg[sid])
+			}
+			sev["after"], sev["exit"], sev["value"], sev["out"] = after, code, val, tailStr(outb.String(), 120)
+			rec.Emit(sev)
+			writeInt(sreg[sid], 40000)
+			continue
+		}
 		switch r.Intn(6) {
 		case 0:
 			ev["cmd"], args = "speedGet", []string{"speed"}
